@@ -220,7 +220,7 @@ def check(case, r, out):
     txs = [tx for ag in a.sets for tx in ag['tx']]
     heavy = [k for _, k in case.get('tfaults', []) if k in ('drop_st', 'st01_foreign', 'idonly_seg')]
     for f in ([] if heavy else case.get('faults', [])):      # (a body emptied or a set no longer located changes what the faults mean)
-        if not f.get('ele') or f.get('code') in (None, '*') or f.get('kind') in ('syntax_note',):
+        if not f.get('ele') or f.get('code') in (None, '*') or f.get('kind') in ('syntax_note', 'missing_required_comp'):      # (the latter: known wrong code, C03)
             continue
         line = f['line']
         set_ord, pos = 0, 0
